@@ -147,13 +147,15 @@ Definition fence_continue_r (r : reader) (ch : N) (indent flen : Z) : result (bo
     | inr (pos, padding) =>
       let seg_start := s_start sg + pos in
       (* preserveLeadingTabInCodeBlock (code_block.go:93) *)
-      adj <- (if padding =? 0 then Ok (seg_start, padding)
-              else
-                let '(sl, ss) := r_position r in
-                r1 <- r_set_position r sl (mkseg (s_start ss - 1) (s_stop ss)) ;;
-                z <- r_line_offset r1 ;;
-                let '(_, off2) := z in
-                Ok (if off + indent =? off2 then (seg_start - 1, 0) else (seg_start, padding))) ;;
+      t <- (if padding =? 0 then Ok ((seg_start, padding), r)
+            else
+              let '(sl, ss) := r_position r in
+              r <- r_set_position r sl (mkseg (s_start ss - 1) (s_stop ss)) ;;
+              z <- r_line_offset r ;;
+              let '(r, off2) := z in
+              r <- r_set_position r sl ss ;;
+              Ok (if off + indent =? off2 then (seg_start - 1, 0) else (seg_start, padding), r)) ;;
+      let '(adj, r) := t in
       r' <- r_advance_and_set_padding r (s_stop sg - s_start sg - pos - 1) padding ;;
       Ok (false, Some adj, r')
     end
